@@ -34,7 +34,7 @@ from xpmc.solvers import construct, call, Inadmissible
 ID = "C19"
 LEVEL = "exploration"
 TECHNIQUE = "bounded exhaustive enumeration of deviation-bounded pairs of inflow states on the real solver (explicit-state exploration, mode L); wave pattern located from the returned fields, textbook jump/expansion relations evaluated on every located state"
-CLAIM = ("Every (bottom, top) state pair within K deviations (K=2 quick, K=3 thorough) of the default pair over a per-side alphabet of pressure, density, Mach "
+CLAIM = ("Every (bottom, top) state pair within K deviations (K=2 quick, K=4 thorough) of the default pair over a per-side alphabet of pressure, density, Mach "
          "number, flow angle and gamma is constructed and called; the plateaus, jumps and fans are located from the returned fields on an arc through every "
          "region (edges refined to 1e-10 rad by further public calls), and the slip-line balance, the oblique-shock relations, the Prandtl-Meyer/isentropic "
          "relations and the pointwise kinematic consistency are evaluated on 2 x (41 arc points + 8 points in each fan + both sides of every edge). "
@@ -45,7 +45,7 @@ LEVEL_NOTE = ("trusted: numpy/math, the textbook relations transcribed in xpmc/x
               "(checked at two radii), defects confined to states between lattice values are not seen; pairs on which the solver raises are counted, "
               "classified with an independent reference solution, and not judged here (C20)")
 BOUND = {"quick": "K=2 deviations from the default pair (279 pairs), 10-parameter alphabet",
-         "thorough": "K=3 deviations from the default pair, same alphabet"}
+         "thorough": "K=4 deviations from the default pair (7992 pairs), same alphabet"}
 RULE = ("tasks = all (bottom_state, top_state) pairs with <= K deviating entries over the alphabet p{1,0.25,4} rho{1,0.5,2} M{2.4,7,1.5,4} theta{0,+-5,+-12 deg} "
         "gamma{1.4,5/3} per side (default first); per pair: one 161-point scan of the arc phi in [-1.45,1.45], <= 10 refinement calls (14-way multi-section of every "
         "edge), one evaluation call at radius 1 and one at radius 0.37 with 41 uniform arc points + 8 points in every fan + 2 points at every edge; an "
@@ -68,7 +68,7 @@ ALPHABET = {
     "pB": [1.0, 0.25, 4.0], "rB": [1.0, 0.5, 2.0], "MB": [2.4, 7.0, 1.5, 4.0], "thB": [0.0, 5.0, -5.0, 12.0, -12.0], "gB": [1.4, G53],
     "pT": [0.25, 1.0, 4.0], "rT": [0.5, 1.0, 2.0], "MT": [7.0, 2.4, 1.5, 4.0], "thT": [0.0, 5.0, -5.0, 12.0, -12.0], "gT": [1.4, G53],
 }
-K = {"quick": 2, "thorough": 3}
+K = {"quick": 2, "thorough": 4}
 
 PHI_MAX = 1.45
 N_SCAN = 161
@@ -310,7 +310,7 @@ def run_task(task):
                                   "value": float(value), "tol": float(tol), "detail": detail})
 
     def check(clause, where, value, tol, detail, statname=None):
-        stat(statname or clause, value)
+        stat((statname or clause) + ("" if value <= tol else " (violating cases)"), value)
         C["relations_checked"] = C.get("relations_checked", 0) + 1
         if not value <= tol:
             violation(clause, where, value, tol, detail)
@@ -492,8 +492,11 @@ def run_task(task):
         w = {"wave": wname}
         pr = D.p / U.p
         base = {"upstream": [U.p, U.rho, U.M, U.theta], "downstream": [D.p, D.rho, D.M, D.theta], "gamma": g, "morphology_attr": morph}
-        if abs(pr - 1.0) > 1e-9:
-            res["nontrivial"].append("%s|%s|%s" % (key, wname, t["kind"]))
+        if max(rel(U.p, D.p), rel(U.rho, D.rho), rel(U.M, D.M), abs(U.theta - D.theta)) <= 1e-9:
+            # a wave of zero strength (the two plateau states differ in the last bits only): nothing to relate
+            C["zero_strength_waves"] = C.get("zero_strength_waves", 0) + 1
+            continue
+        res["nontrivial"].append("%s|%s|%s" % (key, wname, t["kind"]))
         if t["kind"] == "jump":
             C["shocks_checked"] = C.get("shocks_checked", 0) + 1
             phi_s = mid(t)
@@ -521,7 +524,7 @@ def run_task(task):
                 except Exception:
                     coded = False
                 cl = "shock:angle:upstream-direction-ignored" if coded and abs(U.theta) > 1e-9 else "shock:angle"
-                stat(cl, err)
+                stat(cl + " (violating cases)", err)
                 violation(cl, w, err, TOL_ANG, dict(base, located_polar_angle=phi_s, expected=exp_phi, beta=sh["beta"]))
         else:
             C["fans_checked"] = C.get("fans_checked", 0) + 1
@@ -539,7 +542,7 @@ def run_task(task):
             worst = {}
 
             def keep(clause, val, det):
-                stat(clause, val)
+                stat(clause + ("" if val <= (TOL_ANG if "angle" in clause else TOL) else " (violating cases)"), val)
                 C["relations_checked"] = C.get("relations_checked", 0) + 1
                 if clause not in worst or val > worst[clause][0]:
                     worst[clause] = (val, det)
